@@ -126,47 +126,61 @@ def build(prop, info):
         if res['proof_ok']:
             res['audit'] = audit(prop)
         if prop in SOURCE_TIE_USERS:
-            info['source_tie'] = source_tie()
+            info['source_tie'] = source_tie(prop)
         return res
     finally:
         fcntl.flock(lock, fcntl.LOCK_UN)
         lock.close()
 
 
-SOURCE_TIE_USERS = {'C11', 'C04', 'C05', 'C02', 'C16'}      # properties whose theorems rest on the model of the integer codec
+# second tie (DESIGN 3.2a): source text -> Lean by tools/py2lean.py, proved equal to the hand-written model
+SOURCE_TIES = {
+    'integer codec': {'unit': 'SrcInt', 'module': 'HpackVerif.Props.Src', 'audit': 'AuditSrc.lean',
+                      'users': {'C11', 'C04', 'C05', 'C02', 'C16'}},
+    'header table': {'unit': 'SrcTable', 'module': 'HpackVerif.Props.SrcTable', 'audit': 'AuditSrcTable.lean',
+                     'users': {'C06', 'C14', 'C10', 'C08', 'C19'}},
+}
+SOURCE_TIE_USERS = set().union(*[v['users'] for v in SOURCE_TIES.values()])
 
 
-def source_tie():
-    """Second tie (DESIGN 3.5): tools/py2lean.py translates the source text of the integer codec into Lean
-    (Generated/SrcInt.lean); HpackVerif.Props.Src proves that translation equal to the hand-written model for all
-    arguments. Informational: when the source is in a shape the translator or the proofs do not follow, the tie is
-    'unavailable' (never an alarm; the correspondence remains the deciding tie and the streams get a larger budget)."""
-    out = {'held': False}
+def source_tie(prop):
+    """For each translated unit this property's theorems rest on: tools/py2lean.py rewrites Generated/<unit>.lean from
+    the source text; the Props.Src* module proves that translation equal to the hand-written model for all arguments.
+    Informational: when the source is in a shape the translator or the proofs do not follow, the tie is 'unavailable'
+    (never an alarm; the correspondence remains the deciding tie and the streams get a larger budget)."""
     t0 = time.time()
     rc, txt = sh([runner.python_exe(), os.path.join(ROOT, 'tools', 'py2lean.py')], env=dict(os.environ, HPACK_REPO=runner.repo_dir()))
     try:
-        rep = json.loads(txt.strip().splitlines()[-1])
+        reps = json.loads(txt.strip().splitlines()[-1])
     except Exception:
-        rep = {'available': False, 'reason': 'py2lean.py failed: ' + txt[-200:]}
-    out['translator'] = rep
-    if not rep.get('available'):
-        out['status'] = 'unavailable: the translator does not cover this source (%s)' % rep.get('reason', '?')
-        return out
-    rc, txt = sh(['lake', 'build', 'HpackVerif.Props.Src'], cwd=LEAN, timeout=1800)
-    if rc != 0:
-        errs = [l for l in txt.splitlines() if l.startswith('error:') or ': error:' in l]
-        out['status'] = 'unavailable: the translated source is not proved equal to the model (%s)' % '; '.join(e[:160] for e in errs[:2])
-        return out
-    rc, txt = sh(['lake', 'env', 'lean', 'AuditSrc.lean'], cwd=LEAN, timeout=600)
-    thms = {}
-    for l in txt.splitlines():
-        m = re.match(r'.*AUDIT (\S+) \| ?(.*)$', l)
-        if m and not re.search(r'\._|\.(eq_\d+|match_\d+|proof_\d+)$', m.group(1)):
-            thms[m.group(1)] = m.group(2).split()
-    out['theorems'] = thms
-    bad = [k for k, v in thms.items() if not set(v) <= ALLOWED_AXIOMS]
-    out['held'] = bool(thms) and not bad and rc == 0
-    out['status'] = 'held: translation of the source text proved equal to the model' if out['held'] else 'unavailable: audit of Props.Src failed'
+        reps = {}
+    out = {'held': True, 'units': {}}
+    for what, cfg in SOURCE_TIES.items():
+        if prop not in cfg['users']:
+            continue
+        rep = reps.get(cfg['unit'], {'available': False, 'reason': 'py2lean.py failed: ' + txt[-200:]})
+        u = {'held': False, 'translator': rep}
+        out['units'][what] = u
+        if not rep.get('available'):
+            u['status'] = 'unavailable: the translator does not cover this source (%s)' % rep.get('reason', '?')
+            continue
+        rc, bt = sh(['lake', 'build', cfg['module']], cwd=LEAN, timeout=1800)
+        if rc != 0:
+            errs = [l for l in bt.splitlines() if l.startswith('error:') or ': error:' in l]
+            u['status'] = 'unavailable: the translated source is not proved equal to the model (%s)' % '; '.join(e[:160] for e in errs[:2])
+            continue
+        rc, at = sh(['lake', 'env', 'lean', cfg['audit']], cwd=LEAN, timeout=600)
+        thms = {}
+        for l in at.splitlines():
+            m = re.match(r'.*AUDIT (\S+) \| ?(.*)$', l)
+            if m and not re.search(r'\._|\.(eq_\d+|match_\d+|proof_\d+)$', m.group(1)):
+                thms[m.group(1)] = m.group(2).split()
+        u['theorems'] = thms
+        bad = [k for k, v in thms.items() if not set(v) <= ALLOWED_AXIOMS]
+        u['held'] = bool(thms) and not bad and rc == 0
+        u['status'] = 'held: translation of the source text proved equal to the model (%d theorems)' % len(thms) if u['held'] else 'unavailable: audit failed'
+    out['held'] = all(u['held'] for u in out['units'].values())
+    out['status'] = '; '.join('%s — %s' % (k, u['status']) for k, u in out['units'].items())
     out['wall_s'] = round(time.time() - t0, 2)
     return out
 
@@ -936,7 +950,7 @@ def main():
             'trusted_base': [
                 'Lean 4 kernel (lake build); axioms used by the property theorems: ' + ', '.join(sorted({x for v in list(thms.values()) + list(shared.values()) for x in v})),
                 'tools/translate.py dumps the run-time tables/constants of the working tree into lean/HpackVerif/Generated (witnesses untrusted)',
-                'tools/py2lean.py + lean/HpackVerif/Src/Py.lean (source text of the integer codec -> Lean; Props.Src proves it equal to the model): ' + (info.get('source_tie') or {}).get('status', 'not used by this property'),
+                'tools/py2lean.py + lean/HpackVerif/Src/Py.lean (source text of the integer codec / HeaderTable -> Lean; Props.Src / Props.SrcTable prove it equal to the model): ' + (info.get('source_tie') or {}).get('status', 'not used by this property'),
                 'hand-written L2 model lean/HpackVerif/Impl/* tied to the code by the correspondence streams of this run (%d operations, %d disagreements)' % (stats['ops'], len(disag)),
                 'L0 reading of RFC 7541 (lean/HpackVerif/RFC/*) and frozen Appendix A/B tables',
                 'CPython semantics of int/bytes/deque/dict as modelled (DESIGN.md 5.2)',
